@@ -16,6 +16,14 @@ pub enum Spec {
     BadBoard { cards: Vec<u8> },
 }
 
+/// Moves a value to another thread even if its type does not (or no longer does) implement Send. Whether the
+/// public types ARE Send + Sync is decided by the compile-time probe crate `sendsync` alone; the explorers must
+/// keep compiling when that probe fails, so that the other checks still run. Values are only ever used by one
+/// thread at a time here.
+pub struct ForceSend<T>(pub T);
+unsafe impl<T> Send for ForceSend<T> {}
+unsafe impl<T> Sync for ForceSend<T> {}
+
 pub enum State {
     EvalFresh,
     EvalRunning(Iter),
